@@ -6,7 +6,8 @@
 From Coq Require Import List NArith ZArith Bool.
 From Coq.Strings Require Import Byte.
 Require Import GV.Base.Res GV.Base.Byt GV.Base.Ints.
-Require Import GV.Spec.LebSpec GV.Spec.CfaEncSpec GV.Model.Leb GV.Model.Prim GV.Model.CfiWr GV.Proofs.CfiWrProofs.
+Require GV.Spec.CfaSpec GV.Model.CfiRun GV.Proofs.CfiRunProofs GV.Spec.CfiSpec GV.Model.CfiRd.
+Require Import GV.Spec.LebSpec GV.Spec.CfaEncSpec GV.Model.Leb GV.Model.Prim GV.Model.CfiWr GV.Proofs.CfiWrProofs GV.Proofs.CfiRoundtrip.
 Import ListNotations.
 Local Open Scope N_scope.
 
@@ -378,10 +379,129 @@ Example lsda_mismatch_ex :
        [BAddCie (mkCie false 1 4 1 1 8 None (Some 0) 0 false []); BAddFde 0 (fde_a 0)] = Err WInvalidAddress.
 Proof. vm_compute. repeat split. Qed.
 
+(* ---------------------------------------------------------------------------------------------- *)
+(* (7) composition with the READER models of main (CfiRun = C06, CfiRd = C05; proofs in
+   Proofs/CfiRoundtrip.v; nothing of C05/C06 is changed, their theorems are used as they are).
+
+   insn_read_by_reader — for every CallFrameInstruction variant the reader's instruction parser
+   (CfiRun.parse_insn, any build mode, any address size, at any section offset, with any following bytes)
+   returns, on the written bytes, the reader's form [to_insn] of the very instruction d that the C14
+   decoder spec assigns to them and whose meaning is the instruction supplied: same operands, expression
+   operands as (offset, length) references to the blob at the end of the instruction's bytes.
+   DW_CFA_AARCH64_negate_ra_state is UnknownCallFrameInstruction unless the reader's vendor is AArch64. *)
+Theorem insn_read_by_reader : forall (dbg be : bool) (caf : N) (daf : Z) (i : cfi) bs,
+  cfi_wf i = true -> is_i8 daf = true -> write_insn dbg daf i = Ok bs ->
+  exists d,
+    (forall rest, decode1 be (bs ++ rest) = Some (d, rest)) /\ sem caf daf d = MInsn i /\
+    (forall e, expr_of d = Some e -> exists p, bs = p ++ e) /\
+    forall dbg' asz aa off rest,
+      CfiRun.parse_insn dbg' be asz aa off (bs ++ rest) =
+      if negb aa && (match i with NegateRaState => true | _ => false end)
+      then Err EUnknownCallFrameInstruction
+      else Ok (to_insn off (len bs) d, rest).
+Proof. exact insn_read_by_reader_lem. Qed.
+
+Example insn_read_by_reader_ex :
+  write_insn true (-8) (Offset 6 (-16)) = Ok [x86; x02] /\
+  CfiRun.parse_insn false false 8 false 100 [x86; x02; x55] = Ok (CfaSpec.IOffset 6 2, [x55]) /\
+  write_insn true 1 (ValExpression 300 [x11; x22]) = Ok [x16; xac; x02; x02; x11; x22] /\
+  CfiRun.parse_insn true true 4 false 100 [x16; xac; x02; x02; x11; x22]
+  = Ok (CfaSpec.IValExpression 300 {| CfaSpec.ue_off := 104; CfaSpec.ue_len := 2 |}, []).
+Proof. vm_compute. repeat split. Qed.
+
+(* entries_read_by_reader — the reader's entry iterator (CfiRd.entries_all, any build mode) over a written
+   .debug_frame or .eh_frame section (section loaded at address 0; every CIE of the table has the section's
+   address size; section smaller than 4 GiB) terminates without error and returns, in plan order, one item
+   per tile: for a CIE tile the CIE record with the offset, format, version, address size, factors, return
+   register, augmentation (LSDA encoding, personality pointer reduced to the address size and marked
+   indirect iff bit 7 is set, FDE encoding, signal flag) of that CIE and the window of its instruction
+   area; for an FDE tile a partial FDE at that offset pointing at the offset of its CIE's tile, for which
+   CfiRd.fde_parse returns the FDE bound to exactly that CIE record, with the initial address (reduced to the
+   address size), the range and the LSDA of the FDE and the window of its instruction area. All pointer
+   encodings the writer supports (absptr/pcrel x the nine formats x indirect) are covered; the proof goes
+   through C05's entry lemmas (parse_cfi_entry_cie/_fde, cie_from_offset_enc, fde_body_enc) after showing
+   that every written entry IS CfiSpec.enc_cie / enc_fde of its translation (cie_rec_of / fde_rec_of). *)
+Theorem entries_read_by_reader : forall (dbg dbg' be eh : bool) (asz : N) (t : ftable) bs,
+  Forall (fun c => cie_wf c = true /\ c_asize c = asz) (t_cies t) ->
+  Forall (fun p => fde_wf (snd p) = true) (t_fdes t) ->
+  len bs + 16 < 4294967295 ->
+  write_table dbg be eh 0 t = Ok bs ->
+  exists chunks items,
+    map fst chunks = plan [] 0 (map fst (t_fdes t)) /\
+    bs = concat (map snd chunks) /\
+    CfiRd.entries_all dbg' (rd_cfg eh be asz) bs = Ok (items, None) /\
+    reader_sees dbg dbg' be eh asz (t_cies t) (t_fdes t) bs 0 [] chunks items.
+Proof. exact entries_read_by_reader_lem. Qed.
+
+Example entries_read_by_reader_ex :
+  Forall (fun c => cie_wf c = true /\ c_asize c = 4) (t_cies table_ex) /\
+  Forall (fun p => fde_wf (snd p) = true) (t_fdes table_ex) /\
+  exists bs items,
+    write_table true false true 0 table_ex = Ok bs /\ len bs + 16 < 4294967295 /\
+    CfiRd.entries_all true (rd_cfg true false 4) bs = Ok (items, None) /\ length items = 5%nat.
+Proof.
+  split; [repeat constructor|]. split; [repeat constructor|].
+  eexists. eexists. split; [vm_compute; reflexivity|]. split; [vm_compute; reflexivity|].
+  split; [vm_compute; reflexivity|reflexivity].
+Qed.
+
+(* rows_read_by_reader (PARTIAL) — theorem form of the c14.rows oracle. For a written CIE and a written FDE
+   of it, the unwind rows that gimli's table model (CfiRun.fde_rows, C06) produces from the two written
+   instruction areas are, whenever the storage limits of the context are not hit (within_limits, C06), exactly
+   the rows of the DWARF call-frame machine CfaSpec.run_spec on the reader's form of the two programs
+   (ic ++ nops, ifd ++ nops), where ic/ifd match (imatch) the decoded instructions dsc/dsf whose meanings are
+   the supplied CIE instructions and the supplied FDE instructions at their code offsets; and without any
+   limit hypothesis the unlimited spec run of the written areas IS that run (first conjunct).
+   MISSING for the full statement: (1) a CfaSpec-level semantics of the abstract write::CallFrameInstruction
+   list itself — the theorem is stated on the reader's instruction form of the written program, not on a
+   machine defined directly over the (offset, instruction) script; that the effect of a reader instruction
+   depends only on its C14 meaning is not proved; (2) the link from entries_read_by_reader's FDE record
+   (fd_init, fd_range, instruction windows) to the fde_in handed to CfiRun is by construction of fde_in_of,
+   not through a common record type (CfiRun takes an already-parsed FDE: C06 and C05 share no type);
+   (3) CfiRun models `.debug_frame` without augmentation for DW_CFA_set_loc only, which the writer never emits. *)
+Theorem rows_read_by_reader_partial :
+  forall (dbg be eh aa : bool) (cpos fpos coff : N) (c : CfiWr.cie) (f : CfiWr.fde) cb fb,
+  cie_wf c = true -> fde_wf f = true ->
+  forallb (vendor_ok aa) (c_insns c) = true -> forallb (fun p => vendor_ok aa (snd p)) (f_insns f) = true ->
+  cie_write dbg be eh cpos c = Ok cb -> fde_write dbg be eh fpos coff c f = Ok fb ->
+  exists cil chdr carea fil fhdr farea dsc dsf ic ifd n1 n2,
+    cb = cil ++ chdr ++ carea /\ fb = fil ++ fhdr ++ farea /\
+    map (sem (c_caf c) (c_daf c)) dsc = map MInsn (c_insns c) /\
+    locate 0 (map (sem (c_caf c) (c_daf c)) dsf) = f_insns f /\
+    Forall2 (imatch (cpos + len cil + len chdr) carea) dsc ic /\
+    Forall2 (imatch (fpos + len fil + len fhdr) farea) dsf ifd /\
+    forall dbg' caps cx init range,
+      let fi := fde_in_of be aa c init range (cpos + len cil + len chdr) carea (fpos + len fil + len fhdr) farea in
+      let spec := CfaSpec.run_spec (CfiRunProofs.sparams_of fi) init (CfaSpec.spec_end (c_asize c) init range)
+                           (map CfaSpec.It (ic ++ repeat CfaSpec.INop n1)) (map CfaSpec.It (ifd ++ repeat CfaSpec.INop n2)) in
+      CfiRunProofs.spec_unl dbg' fi = spec /\
+      (CfiRun.cap_full (CfaSpec.max_stack caps) 0 = false -> CfiRunProofs.within_limits dbg' caps fi = true ->
+       Forall2 CfiRunProofs.row_equiv (fst (fst (CfiRun.fde_rows dbg' caps fi cx))) (fst spec) /\
+       snd (fst (CfiRun.fde_rows dbg' caps fi cx)) = snd spec).
+Proof. exact rows_read_by_reader_lem. Qed.
+
+Definition heap_caps : CfaSpec.caps := {| CfaSpec.max_stack := Some 4%nat; CfaSpec.max_rules := Some 192%nat |}.
+Example rows_read_by_reader_ex :
+  cie_wf cie_a = true /\ fde_wf (fde_a 4096) = true /\
+  forallb (vendor_ok false) (c_insns cie_a) = true /\
+  forallb (fun p => vendor_ok false (snd p)) (f_insns (fde_a 4096)) = true /\
+  exists cb fb rows cx',
+    cie_write true false false 0 cie_a = Ok cb /\ fde_write true false false 16 0 cie_a (fde_a 4096) = Ok fb /\
+    CfiRun.fde_rows true heap_caps (fde_in_of false false cie_a 4096 16 13 (skipn 13 cb) 32 (skipn 16 fb))
+                    {| CfiRun.c_stack := []; CfiRun.c_initial_rule := None; CfiRun.c_init := true |}
+    = ((rows, CfaSpec.Done), cx') /\
+    map CfiRun.r_start rows = [4096; 4100] /\ map CfiRun.r_cfa rows = [CfaSpec.CfaRegOff 4 4; CfaSpec.CfaRegOff 4 8].
+Proof.
+  repeat split; try reflexivity.
+  eexists. eexists. eexists. eexists. split; [vm_compute; reflexivity|]. split; [vm_compute; reflexivity|].
+  split; [vm_compute; reflexivity|]. split; reflexivity.
+Qed.
+
 (* pins *)
 Check factoring_exact. Check factoring_exact_code. Check advance_loc_forms. Check advance_loc_encodings.
 Check insn_write_read. Check fde_program_read. Check cie_program_read.
 Check entry_layout_cie. Check entry_layout_fde.
 Check cie_eqb_eq. Check cie_dedup_ids. Check cie_dedup_emission. Check plan_spec.
 Check pointer_read_back. Check cie_header_read. Check fde_header_read. Check table_roundtrip.
-Check table_roundtrip_partial. Check no_panic_write. Check unsupported_address_size_is_error. Check lsda_mismatch_is_error. Check no_panic_build.
+Check table_roundtrip_partial. Check insn_read_by_reader. Check entries_read_by_reader. Check rows_read_by_reader_partial.
+Check no_panic_write. Check unsupported_address_size_is_error. Check lsda_mismatch_is_error. Check no_panic_build.
